@@ -75,17 +75,42 @@ def solutionSwB (P : Program) (val : Node → Option Val) : Bool :=
     if P.g.isSwitch n then val n == (swSel P val n).bind val
     else val n == (if (P.g.preds n).all (fun p => (val p).isSome) then valueOf P n (kwFrom P val n) else none)
 
-/-- Boolean form of the structural part of `SwP`: no one-of, no recurrent destination, decision nodes are ordinary -/
-def swPB (P : Program) : Bool :=
-  P.g.nodes.all (fun n => !P.g.isOneofHead n && (P.g.attr n).startNode.isNone) &&
+/-- Boolean form of `SolutionOne` on the nodes of the graph -/
+def solutionOneB (P : Program) (val : Node → Option Val) : Bool :=
+  (P.g.nodes.all fun n =>
+    if P.g.isSwitch n then val n == (swSel P val n).bind val
+    else if P.g.isOneofHead n then val n == (P.g.attr n).oneofNodes.findSome? val
+    else val n == (if (P.g.preds n).all (fun p => (val p).isSome) then valueOf P n (kwFrom P val n) else none)) &&
+  (!(P.g.nodes.any P.g.isOneofHead) || (val P.g.input).isSome)
+
+/-- the view in which, of all one-of candidates, only `c` is visible -/
+def candView (P : Program) (c : Node) : Graph.View :=
+  { okNode := fun u => !(P.g.attr u).isOneofChild || u == c, okEdge := (filteredView P init).okEdge }
+
+/-- Boolean form of the structural part of `OneP` (switches and one-ofs, no recurrent destination) -/
+def onePB (P : Program) : Bool :=
   P.g.edges.all (fun e => !e.isSwitch || !P.g.isSwitch e.u) &&
   P.g.edges.all (fun e => !P.g.isSwitch e.v || e.isSwitch || e.case.isSome) &&
-  P.g.nodes.contains P.g.output && P.g.nodes.all (fun n => !(P.g.attr n).isOneofChild)
+  P.g.edges.all (fun e0 => decide (((P.g.edges.filter (fun e => e.v == e0.v)).filter (·.isSwitch)).length ≤ 1)) &&
+  (P.g.input != P.g.output) &&
+  (P.g.nodes.contains P.g.input && !(P.g.attr P.g.input).isOneofChild) &&
+  (P.g.nodes.contains P.g.output && !(P.g.attr P.g.output).isOneofChild) &&
+  P.g.nodes.all (fun h => !P.g.isOneofHead h || !P.g.isSwitch h) &&
+  P.g.edges.all (fun e => !P.g.isOneofHead e.v || (P.g.attr e.v).oneofNodes.contains e.u || e.u == P.g.input) &&
+  P.g.edges.all (fun e => e.v != P.g.input) &&
+  P.g.edges.all (fun e => P.g.isSwitch e.v || P.g.isOneofHead e.v || e.kwarg.isSome || e.u == P.g.input) &&
+  P.g.nodes.all (fun h => !P.g.isOneofHead h || (P.g.attr h).oneofNodes.all (fun c =>
+    P.g.nodes.contains c && c != P.g.input && (P.g.reachSet (candView P c) P.g.input).contains c)) &&
+  P.g.nodes.all (fun n => (P.g.attr n).startNode.isNone)
+
+/-- Boolean form of the structural part of `SwP`: `OneP` without one-ofs -/
+def swPB (P : Program) : Bool := onePB P && P.g.nodes.all (fun n => !P.g.isOneofHead n)
 
 /-- one round of the dataflow equations (with switches) over the nodes of the graph -/
 def eqRound (P : Program) (val : Node → Option Val) : List (Node × Option Val) :=
   P.g.nodes.map fun n =>
     (n, if P.g.isSwitch n then (swSel P val n).bind val
+        else if P.g.isOneofHead n then (P.g.attr n).oneofNodes.findSome? val
         else if (P.g.preds n).all (fun p => (val p).isSome) then valueOf P n (kwFrom P val n) else none)
 
 def lookupVal (tbl : List (Node × Option Val)) (n : Node) : Option Val :=
